@@ -268,6 +268,8 @@ static void after_read_map(int r, struct slice sl, int was_mapped)
     if (sl.end < sl.beg) { oracle_fail("read-region-negative", r, 0, 0); len = 0; }
     size_t beg = len ? (size_t)(sl.beg - ch.data) : 0;
     printf("slice %zu %zu st=%d", beg, len, (int)rd[r].status);
+    // C01.6: within the usage rules a reader's status never leaves Channel_Ok (an error status means the writer lapped it)
+    if (!was_mapped && rd[r].status != Channel_Ok) oracle_fail("reader-status-not-ok", r, (long)rd[r].status, (long)total);
     if (len) {
         if (beg + len > ch.capacity) oracle_fail("read-region-outside-buffer", r, (long)beg, (long)len);
         if (frame_mode && beg % 8) oracle_fail("frame-region-misaligned", r, (long)beg, (long)len);
